@@ -33,7 +33,7 @@ ID = "C18"
 CLAIMED = True
 TITLE = "Server lifecycle operations are safe in every order"
 REQUIRED_THEOREMS = ["C18_shutdown_waits", "C18_restartable", "C18_closed_refuses", "C18_listeners_closed_after_close",
-                     "C18_second_serve_refused", "C18_no_deadlock"]
+                     "C18_second_serve_refused", "C18_no_deadlock", "C18_listener_restartable"]
 LEVEL_TEXT = (
     "Machine-checked proof (Lean 4) over two labelled transition systems mirroring BaseAsyncNetworkServerImpl and "
     "BaseStandaloneNetworkServerImpl (serve_forever / shutdown / server_close / is_serving, exit-stack order, event swap, "
@@ -89,6 +89,9 @@ NOISE_PREFIX = "@"
 # ----------------------------------------------------------------------------------------------
 
 def run_real(case: dict) -> list[str]:
+    if case.get("path") == "lsn":
+        from vlib import c14_listener
+        return c14_listener.run_case(case)[0]
     if case.get("mode") in ("threads", "portal"):
         from vlib import c18_pool
         return c18_pool.run_case(case)
@@ -101,6 +104,9 @@ def real_for_diff(case: dict, real: list[str]) -> list[str]:
 
 
 def model_input(case: dict, real: list[str]):
+    if case.get("path") == "lsn":
+        from vlib import c14_listener
+        return c14_listener.model_input(case, real)
     if any(ln.startswith(("infra", "harness-exc", "@skipped")) for ln in real):
         return None
     ops = real_for_diff(case, real)
@@ -432,6 +438,9 @@ def _pool_lines(real: list[str]) -> str | None:
 
 
 def oracle(case: dict, real: list[str]) -> str | None:
+    if case.get("path") == "lsn":
+        from vlib import c14_listener
+        return c14_listener.oracle(case, real)
     if case.get("mode") in ("threads", "portal"):
         r = _pool_lines(real)
         if r is not None:
@@ -561,6 +570,9 @@ def oracle(case: dict, real: list[str]) -> str | None:
 
 
 def nontrivial(case: dict, real: list[str]) -> str | None:
+    if case.get("path") == "lsn":
+        from vlib import c14_listener
+        return c14_listener.nontrivial(case, real)
     if any(ln.startswith(("@skipped", "infra", "harness-exc")) for ln in real):
         return None
     if case.get("mode") == "portal":
@@ -670,6 +682,9 @@ def nontrivial(case: dict, real: list[str]) -> str | None:
 
 def known_key(case: dict, real: list[str], why: str) -> str:
     """signatures of the two defects found on the unpatched tree (docs/C18.md), everything else: the clause violated"""
+    if case.get("path") == "lsn":
+        from vlib import c14_listener
+        return c14_listener.known_key(case, real, why)
     if "server_close()" in why and ("return" in why):
         tr = parse_trace(real)
         serves = [c for c in tr["calls"] if c["op"] == "serve" and c["out"] not in ("ServerAlreadyRunning",)]
@@ -693,6 +708,10 @@ def known_key(case: dict, real: list[str], why: str) -> str:
 
 
 def shrink(case: dict):
+    if case.get("path") == "lsn":
+        from vlib import c14_listener
+        yield from c14_listener.shrink(case)
+        return
     progs = case["progs"]
     sched = case.get("sched", [])
     for i in range(len(progs)):
@@ -718,7 +737,8 @@ def shrink(case: dict):
 # ----------------------------------------------------------------------------------------------
 
 def corpus() -> list[dict]:
-    cs: list[dict] = []
+    from vlib import c14_listener
+    cs: list[dict] = list(c14_listener.corpus())      # the listener machine (Model/Listener.lean, theorem C18_listener_restartable)
     for kind in ("tcp", "udp"):
         base = {"mode": "async", "kind": kind, "init_hops": 1, "fac_hops": 1}
         # shutdown / close / second serve landing at every turn of start-up and of the running phase
@@ -916,6 +936,10 @@ def _activation_async(rng) -> dict:
 
 def generate(rng, tier: str, boost: int):
     from vlib import c18_pool
+    from vlib import c14_listener
+    lrng = core.sub_rng(rng.getrandbits(32), "c18-lsn")
+    for _ in range((300 if tier == "quick" else 5000) * boost):
+        yield c14_listener.gen_case(lrng)
     n_async = (700 if tier == "quick" else 12000) * boost
     n_act = (150 if tier == "quick" else 3000) * boost
     n_thr = (150 if tier == "quick" else 1500) * boost
